@@ -35,6 +35,9 @@ func run(c *hc.Ctx) {
 	if c.Only == "" || c.Only == "txt" {
 		genTXT(c, 2*n)
 	}
+	if c.Only == "" || c.Only == "parse" {
+		genPARSE(c, 2*n)
+	}
 	if c.Only == "" || c.Only == "hist" {
 		genHIST(c, 3*n)
 	}
@@ -230,11 +233,166 @@ func genTXT(c *hc.Ctx, n int) {
 }
 
 // ---------------------------------------------------------------------------------------------
+// PARSE: nested values through the real writeVal, read back by the Lean list parser (the one the theorem
+// C13.value_roundtrip is about) and by the Lean ByteArray reader; expected = the original tree.
+
+func showVal(v pdf.VerifVal) string {
+	switch v.Kind {
+	case 'b':
+		if v.B {
+			return "T"
+		}
+		return "F"
+	case 'i':
+		return "#" + strconv.Itoa(v.I)
+	case 'f':
+		return "#" + pdf.VerifDec(v.F)
+	case 's':
+		return "(" + fmt.Sprintf("%x", v.S) + ")"
+	case 'r':
+		return "R" + strconv.Itoa(v.I)
+	case 'n', 'F':
+		return "/" + fmt.Sprintf("%x", v.S)
+	case 'a':
+		sb := "["
+		for _, x := range v.Arr {
+			sb += showVal(x) + " "
+		}
+		return sb + "]"
+	case 'd':
+		idx := map[string]int{}
+		var others []string
+		for i, k := range v.Keys {
+			idx[k] = i
+			if k != "Type" && k != "Subtype" {
+				others = append(others, k)
+			}
+		}
+		sort.Strings(others)
+		order := []string{}
+		if _, ok := idx["Type"]; ok {
+			order = append(order, "Type")
+		}
+		if _, ok := idx["Subtype"]; ok {
+			order = append(order, "Subtype")
+		}
+		order = append(order, others...)
+		sb := "{"
+		for _, k := range order {
+			sb += fmt.Sprintf("%x", k) + "=" + showVal(v.Vals[idx[k]]) + " "
+		}
+		return sb + "}"
+	}
+	return "?"
+}
+
+func hasStream(v pdf.VerifVal) bool {
+	if v.Kind == 'S' {
+		return true
+	}
+	for _, x := range v.Arr {
+		if hasStream(x) {
+			return true
+		}
+	}
+	for _, x := range v.Vals {
+		if hasStream(x) {
+			return true
+		}
+	}
+	return false
+}
+
+func genPARSE(c *hc.Ctx, n int) {
+	g := &valGen{c: c, refN: 20, quiet: true}
+	for it := 0; it < n; it++ {
+		v := g.gen(4)
+		if hasStream(v) {
+			it--
+			continue
+		}
+		w := pdf.VerifNewWriter()
+		start := w.Pos()
+		if msg := hc.Try(func() { w.WriteVal(v) }); msg != "" {
+			c.Fail("panic:writeVal", msg, map[string]any{"value": showVal(v)})
+			continue
+		}
+		out := w.Bytes()[start:]
+		want := showVal(v)
+		c.Case("PARSE "+hx(out), "=", want+" same=true")
+		c.Evals++
+		c.Distinct(want)
+		c.Count("parse:kind-" + string(v.Kind))
+		// Go-side oracle: the independent Go parser reads the same tree back
+		pvv, used, ok := (&rd{b: out}).parseObj(true, 0, 0)
+		var toks []string
+		if ok {
+			pvTokens(pvv, nil, false, &toks)
+		}
+		var wantToks []string
+		g.tokens(canonVal(v), &wantToks)
+		if !ok || used != len(out) || normToks(toks) != normToks(wantToks) {
+			c.Fail("value-roundtrip", fmt.Sprintf("value %s is written as %q which does not read back as the same tree", want, out), map[string]any{"value": want, "written_hex": hx(out)})
+		}
+	}
+}
+
+// canonVal reorders dictionary entries the way a reader sees them (Type, Subtype, sorted keys).
+func canonVal(v pdf.VerifVal) pdf.VerifVal {
+	switch v.Kind {
+	case 'a':
+		o := pdf.VerifVal{Kind: 'a'}
+		for _, x := range v.Arr {
+			o.Arr = append(o.Arr, canonVal(x))
+		}
+		return o
+	case 'd':
+		idx := map[string]int{}
+		var others []string
+		for i, k := range v.Keys {
+			idx[k] = i
+			if k != "Type" && k != "Subtype" {
+				others = append(others, k)
+			}
+		}
+		sort.Strings(others)
+		order := []string{}
+		if _, ok := idx["Type"]; ok {
+			order = append(order, "Type")
+		}
+		if _, ok := idx["Subtype"]; ok {
+			order = append(order, "Subtype")
+		}
+		order = append(order, others...)
+		o := pdf.VerifVal{Kind: 'd'}
+		for _, k := range order {
+			o.Keys = append(o.Keys, k)
+			o.Vals = append(o.Vals, canonVal(v.Vals[idx[k]]))
+		}
+		return o
+	}
+	return v
+}
+
+// normToks: integers and floats are both plain number text for a reader ("i5" vs "f35")
+func normToks(t []string) string {
+	o := make([]string, len(t))
+	for i, x := range t {
+		if strings.HasPrefix(x, "i") {
+			x = "f" + fmt.Sprintf("%x", x[1:])
+		}
+		o[i] = x
+	}
+	return strings.Join(o, " ")
+}
+
+// ---------------------------------------------------------------------------------------------
 // HIST
 
 type valGen struct {
-	c    *hc.Ctx
-	refN int
+	c     *hc.Ctx
+	refN  int
+	quiet bool // do not count stream kinds
 }
 
 var keyPool = []string{"Type", "Subtype", "Length", "Filter", "A", "B", "Zz", "Kids", "Count", "a", "Typ", "Subtypes", "Len", "X1", "x1"}
@@ -377,22 +535,28 @@ func (g *valGen) gen(depth int) pdf.VerifVal {
 		switch c.Intn(6) {
 		case 0:
 			keys, vals = append(keys, "Filter"), append(vals, pdf.VerifVal{Kind: 'F', S: "FlateDecode"})
-			c.Count("hist:stream-flate")
+			g.count("hist:stream-flate")
 		case 1:
 			keys, vals = append(keys, "Filter"), append(vals, pdf.VerifVal{Kind: 'F', S: "ASCII85Decode"})
-			c.Count("hist:stream-a85")
+			g.count("hist:stream-a85")
 		case 2:
 			keys, vals = append(keys, "Filter"), append(vals, pdf.VerifVal{Kind: 'a', Arr: []pdf.VerifVal{{Kind: 'F', S: "ASCII85Decode"}, {Kind: 'F', S: "FlateDecode"}}})
-			c.Count("hist:stream-a85+flate")
+			g.count("hist:stream-a85+flate")
 		case 3:
 			keys, vals = append(keys, "Filter"), append(vals, pdf.VerifVal{Kind: 'F', S: "DCTDecode"})
-			c.Count("hist:stream-dct")
+			g.count("hist:stream-dct")
 		default:
-			c.Count("hist:stream-nofilter")
+			g.count("hist:stream-nofilter")
 		}
 		v.Keys, v.Vals = keys, vals
 		v.Stream = genBytes(c, 40)
 		return v
+	}
+}
+
+func (g *valGen) count(k string) {
+	if !g.quiet {
+		g.c.Count(k)
 	}
 }
 
